@@ -4,6 +4,7 @@ use crate::value::{DynObject, ObjectRepr, Tuple, Value, ValueKind, ValueRepr};
 
 const MIN_I128_AS_POS_U128: u128 = 170141183460469231731687303715884105728;
 const MAX_REPEATED_STRING_LEN: usize = 100_000_000;
+const MAX_REPEATED_TUPLE_LEN: usize = 1_000_000;
 
 /// Iterator wrapper that provides exact size hints for iterators with known length.
 pub(crate) struct LenIterWrap<I: Send + Sync>(pub(crate) usize, pub(crate) I);
@@ -422,11 +423,22 @@ fn repeat_iterable(n: &Value, seq: &DynObject) -> Result<Value, Error> {
         )
     }));
 
+    let total = ok!(len.checked_mul(n).ok_or_else(|| {
+        Error::new(
+            ErrorKind::InvalidOperation,
+            "repeated sequence is too large",
+        )
+    }));
+
     if let Some(tuple) = seq.downcast_ref::<Tuple>() {
-        let capacity = ok!(len.checked_mul(n).ok_or_else(|| {
-            Error::new(ErrorKind::InvalidOperation, "repeated tuple is too large")
-        }));
-        let mut values = Vec::with_capacity(capacity);
+        // tuples are repeated eagerly
+        if total > MAX_REPEATED_TUPLE_LEN {
+            return Err(Error::new(
+                ErrorKind::InvalidOperation,
+                "repeated tuple is too large",
+            ));
+        }
+        let mut values = Vec::with_capacity(total);
         for _ in 0..n {
             values.extend(tuple.iter().cloned());
         }
@@ -440,7 +452,7 @@ fn repeat_iterable(n: &Value, seq: &DynObject) -> Result<Value, Error> {
     // improve on this here.
     Ok(Value::make_object_iterable(seq.clone(), move |seq| {
         Box::new(LenIterWrap(
-            len * n,
+            total,
             (0..n).flat_map(move |_| {
                 seq.try_iter().unwrap_or_else(|| {
                     Box::new(
